@@ -89,19 +89,19 @@ CHECKS = {
 
 # what the systematic families added to each check's space (DESIGN.md section 12), appended to the level text
 ADD = {
- "C01": " The depth-2 space includes the systematic families (tagged enums: tagging x ordered variant kinds x leaf; struct members: type x state; unions: {oneOf, anyOf} x ordered operand pairs; allOf refinements; array / tuple forms; string constraints; lifted member-level allOf; near-twin unnamed types; one shape per arm of convert_schema_object) with a `supported fragment` flag: outside it typify may decline a schema, inside it rejection is a violation.",
+ "C01": " The depth-2 space includes the systematic families (tagged enums: tagging x ordered variant kinds x leaf; struct members: type x state; unions: {oneOf, anyOf} x ordered operand pairs; allOf refinements; array / tuple forms; string constraints; lifted member-level allOf; near-twin unnamed types; one shape per arm of convert_schema_object) with a `supported fragment` flag: outside it typify may decline a schema, inside it rejection is a violation. Later dimensions: names that meet without two alike keys (root title, invented member / item / variant names, own-title members) against a key; compound member types whose elements are named types with defaults under the builder; struct variants with defaults after variants of other kinds; native-named definitions; float-spelled integer defaults.",
  "C02": " The space includes the systematic families listed under C01 (every cell whose schema is in the faithful fragment).",
  "C03": " Same families as C02; member-wise unions of allOf branches count as declared-only instances.",
- "C05": " Cells of the systematic families built only from the constraints the statement lists (bounded non-fixed arrays, integer bounds, untyped enums and `format` on enums are not 'enforced constructs'); plus a targeted 'delete a required non-nullable member' mutator for 22 member types (incl. sets, free-form values, $ref sets) in struct and struct-variant position.",
- "C06": " Default candidates are the hand-listed ones plus candidates derived from each kind's instance universe (valid and invalid by the oracle); kinds for adjacent / untagged / tuple-variant enums, deny lists, patterns; defaults on a recursive reference.",
- "C07": " Node kinds also include allow-listed objects (constrained newtype around a struct), internally / adjacently tagged and untagged enums and non-exclusive anyOf (struct of flattened Options).",
- "C08": " Every name is also used as a required-only member, in mixed declared / required-only pairs, next to a flattened additional-properties member, and as externally / internally tagged variant name.",
- "C09": " Fragment menu of 42 (type lists, formats, const, not-required forms, anyOf, contains, $ref to a oneOf, min/maxProperties); lifted family: two object branches constraining one optional property, ordered pairs of 20 member schemas; ordered triples also in the quick tier.",
- "C10": " Defaults inside the admitted range must be accepted; near-miss format names (width suffix, case, plural, separator) for number / integer / string formats must behave like no format.",
+ "C05": " Cells of the systematic families built only from the constraints the statement lists (bounded non-fixed arrays, integer bounds, untyped enums and `format` on enums are not 'enforced constructs'); plus a targeted 'delete a required non-nullable member' mutator for 22 member types (incl. sets, free-form values, $ref sets) in struct and struct-variant position. Also: tags written as const, type lists that leave one JSON type out, tuple positions with different constraints, refinements of bases that carry bounds of their own.",
+ "C06": " Default candidates are the hand-listed ones plus candidates derived from each kind's instance universe (valid and invalid by the oracle); kinds for adjacent / untagged / tuple-variant enums, deny lists, patterns; defaults on a recursive reference. Positions: struct member, member of a struct variant that follows unit / newtype variants, definition, add_type_with_name. Further kinds: constrained map keys, closed tagged enums, multi-byte strings under length bounds, u64 values beyond i64::MAX in nested positions, float-spelled integers (rejection allowed).",
+ "C07": " Node kinds also include allow-listed objects (constrained newtype around a struct), internally / adjacently tagged and untagged enums and non-exclusive anyOf (struct of flattened Options). Also: definitions that are themselves tuples / fixed arrays of another definition, two back edges out of one node, and every graph with a map edge under three further map types.",
+ "C08": " Every name is also used as a required-only member, in mixed declared / required-only pairs, next to a flattened additional-properties member, and as externally / internally tagged variant name. Also variant payload kinds (1-tuple, 2-tuple, struct, adjacent content), alias-like definitions (named through the newtype wrapper), and variants carrying another single-valued property.",
+ "C09": " Fragment menu of 42 (type lists, formats, const, not-required forms, anyOf, contains, $ref to a oneOf, min/maxProperties); lifted family: two object branches constraining one optional property, ordered pairs of 20 member schemas; ordered triples also in the quick tier. Also string-format and integer-format pairs in every order, operands that are allOf groups (diamonds), three-branch oneOf operands, explicit-true additionalProperties / additionalItems.",
+ "C10": " Defaults inside the admitted range must be accepted; near-miss format names (width suffix, case, plural, separator) for number / integer / string formats must behave like no format. multipleOf {1,2} in the quick tier; the integer as one alternative of a multi-type list.",
  "C11": " Includes the string-constraint, string-refinement and string-union families.",
- "C13": " Includes the family 'one external path used twice in one type space with every ordered pair of parameter forms' (inline/inline, definition/inline, Vec/inline).",
- "C14": " Maps and conversion schemas also in nested positions (Vec of maps, map of maps, nullable map, map value, enum variant payloads, constrained-key free-value maps), patches on inline (non-definition) types, and a generic differential: every member type equals its default-settings type under the substitutions the settings imply.",
- "C16": " Alphabet of 18 ops incl. a self-referential root, cross-batch references and a {$ref, default} member whose target is converted later / earlier; invariant I5: a root addition's id names that root and '#' refers to it; split / listing-order equivalences.",
+ "C13": " Includes the family 'one external path used twice in one type space with every ordered pair of parameter forms' (inline/inline, definition/inline, Vec/inline). Also prerelease / build-metadata versions, same-crate extensions with other requirements in one document, a definition name that is a suffix of the external type's name (the type named after the definition must exist), paths that merely begin with the crate identifier.",
+ "C14": " Maps and conversion schemas also in nested positions (Vec of maps, map of maps, nullable map, map value, enum variant payloads, constrained-key free-value maps), patches on inline (non-definition) types, and a generic differential: every member type equals its default-settings type under the substitutions the settings imply. Second-call variants (a later add_ref_types holding the replaced / patched definition again) and an odd-key family (replace / patch on definitions whose keys start with a digit, are keywords or carry punctuation).",
+ "C16": " Alphabet of 18 ops incl. a self-referential root, cross-batch references and a {$ref, default} member whose target is converted later / earlier; invariant I5: a root addition's id names that root and '#' refers to it; split / listing-order equivalences. Later ops: one batch holding a definition and the name an earlier definition of it invents (R14), a recursive definition with a non-cyclic referrer whole vs split (R7*), unnamed types (T10/T11), one schema under two hints (T12/T13), members using the shared default helpers (R8/R9/R89); I2 also compares the returned type id and the size of the type table.",
  "C17": " Space as C01's depth-2 space incl. the systematic families.",
  "C18": " 29 member types incl. sets, one-tuples, fixed arrays, keyed maps, inline structs / enums; self-referential structs (self / nullable self / Vec<self> x state x earlier-sorting referrer).",
  "C19": " Space as C01's depth-2 space incl. the systematic families; any rustc error arising inside the expansion of a derive counts as a missing promised trait.",
